@@ -102,5 +102,15 @@ def run(ctx):
         return s
     for s in fam.each_bin(per_bin):
         pairs |= s
+    rf = ctx.family("replies")
+
+    def per_bin_r(b, progs, r):
+        s = set()
+        for p in progs:
+            s |= check_prog(ctx, r, p, max(1, n // 3), reply_too=True)
+        return s
+    for s in rf.each_bin(per_bin_r):
+        pairs |= s
+    ctx.cov["reply_programs"] = len(rf.progs)
     ctx.cov["kind_pairs_observed"] = sorted(f"{a}->{b}" for a, b in pairs)
     ctx.cov["programs"] = len(fam.progs)
